@@ -18,7 +18,7 @@ use crate::model::{self, Read, Table};
 use crate::runner::{CheckResult, Env, Job, Outcome, PropJob};
 use crate::util::{is_pal, rc, splitmix, to_ascii, Seq};
 
-pub const RULE: &str = "case = read set with per-read labels and arbitrary caller-supplied boundary extension bytes, read container in {DnaBytes, DnaString, Lmer<6 words>, forward DnaStringSlice at an offset, reverse-complemented DnaStringSlice}, stranded flag, report_all_kmers flag, summarizer in {CountFilter(n), CountFilterSet(n), recording summarizer} with n from 0 to above the maximum count, and a memory budget chosen through the verif_hooks memory-unit override so that the planned number of bucket slices ranges over 1..>=257 (pass counts 1..256, read back from the hook counter). Oracle = string-level grouping: key set, iteration and get() for every model key and for absent k-mers, count = min(#obs,65535), sorted de-duplicated labels, observation list in input order (recorder), extension unions (palindromes up to E∪rc(E)), all_kmers ascending or empty. Non-trivial = some k-mer observed >= 2 times; labels record the pass counts actually made.";
+pub const RULE: &str = "case = read set with per-read labels and arbitrary caller-supplied boundary extension bytes, read container in {DnaBytes, DnaString, Lmer<6 words>, forward DnaStringSlice at an offset, reverse-complemented DnaStringSlice}, stranded flag, report_all_kmers flag, summarizer in {CountFilter(n), CountFilterSet(n), recording summarizer} with n from 0 to above the maximum count and around / above 65 536, and a memory budget chosen through the verif_hooks memory-unit override so that the planned number of bucket slices ranges over 1..>=257 (pass counts 1..256, read back from the hook counter). Oracle = string-level grouping: key set, iteration and get() for every model key and for absent k-mers, count = min(#obs,65535), sorted de-duplicated labels, observation list in input order (recorder), extension unions (palindromes up to E∪rc(E)), all_kmers ascending or empty. Non-trivial = some k-mer observed >= 2 times; labels record the pass counts actually made.";
 pub const TECHNIQUE: &str = "seeded proptest against a string-level grouping model; pass count forced through the add-only verif_hooks feature (metamorphic over pass counts)";
 
 #[derive(Debug, Clone, Serialize, Deserialize)]
